@@ -45,8 +45,23 @@ Definition dict_of {V} (l : list (string * V)) : list (string * V) := dmerge [] 
 Definition mem (s : string) (l : list string) : bool := existsb (String.eqb s) l.
 
 (* ------------------------------------------------------------------ values, signatures, tasks *)
-(* A Python value is opaque: the name of its class and an identity. *)
-Record value := V { vty : string; vid : N }.
+(* A Python value.  An atom is opaque (the name of its class and an identity: int, str, float,
+   bytes, None, an enum member, a path, an array ...); a value with parts carries the name of
+   its class and its parts: sequences (list, tuple, set, frozenset and their subclasses,
+   named tuples), mappings (dict and its subclasses) and instances with attributes (okind says
+   how the class was made).  The builders never look inside a value: only `vty` (the class,
+   for isinstance) is used by the model; the structure is there so that "the job carries the
+   value given" is equality of the whole value -- class and parts -- and not of a label. *)
+Inductive okind := ODataclass | OPydantic | OPlain.
+
+Inductive value :=
+| V (cls : string) (vid : N)
+| VSeq (cls : string) (items : list value)
+| VMap (cls : string) (items : list (value * value))
+| VObj (kind : okind) (cls : string) (fields : list (string * value)).
+
+Definition vty (v : value) : string :=
+  match v with V c _ | VSeq c _ | VMap c _ | VObj _ c _ => c end.
 
 (* an annotation as inspect.signature reports it: Parameter.empty, a string, an object
    with a __name__ (a class, a generic alias such as list[int]), or an object without
@@ -83,6 +98,8 @@ Fixpoint schema_pairs (ps : list param) : res (list (string * string)) :=
       else schema_pairs r
   end.
 
+(* `p.default is not inspect.Parameter.empty` (fix4-C19: the test is by identity, the default
+   value itself is never asked): a parameter has a default or it has none, whatever the value *)
 Fixpoint default_pairs (ps : list param) : list (string * value) :=
   match ps with
   | [] => []
@@ -108,6 +125,9 @@ Definition str_of_nat (n : nat) : string := NilZero.string_of_uint (Nat.to_uint 
 Definition enumerate_from {A} (start : nat) (l : list A) : list (string * A) :=
   combine (map str_of_nat (seq start (List.length l))) l.
 
+(* with_values(self, /, *args, **kwargs): any keyword is a value for the task, `self` included;
+   model_copy(update=...) is a shallow copy -- the values already held are handed on as they
+   are (Low/BuilderValues.v states this as a rebuild with the identity conversion) *)
 Definition with_values (t : task) (args : list value) (kwargs : list (string * value)) : task :=
   T (tdf t) (dmerge (skw t) kwargs) (dmerge (sps t) (dict_of (enumerate_from 0 args))).
 
